@@ -43,6 +43,7 @@ func L(vs ...Val) Val {
 type Closure struct {
 	Name   string
 	Params []string
+	Opt    []OptParam // &optional parameters after the required ones
 	Body   []Val
 	Env    *Env
 }
@@ -341,12 +342,19 @@ func (m *Machine) Apply(f *Closure, args []Val) []Val {
 			return b(m, args)
 		}
 	}
-	if len(args) != len(f.Params) {
+	if len(args) < len(f.Params) || len(args) > len(f.Params)+len(f.Opt) {
 		m.fail("error", "wrong number of arguments to %s: %d", f.Name, len(args))
 	}
 	env := NewEnv(f.Env)
 	for i, p := range f.Params {
 		env.bind(p, args[i])
+	}
+	for i, op := range f.Opt {
+		if k := len(f.Params) + i; k < len(args) {
+			env.bind(op.Name, args[k])
+		} else {
+			env.bind(op.Name, m.evalOne(op.Default, env))
+		}
 	}
 	// a function body is an implicit block named after the function (defun) - generated programs do not use it
 	return m.body(f.Body, env)
@@ -530,10 +538,10 @@ func (m *Machine) evalForm(form []Val, env *Env) []Val {
 		}
 		return single(Sym(vn))
 	case "lambda":
-		return single(&Closure{Name: "lambda", Params: params(args[0]), Body: args[1:], Env: env})
+		return single(&Closure{Name: "lambda", Params: params(args[0]), Opt: optParams(args[0]), Body: args[1:], Env: env})
 	case "defun":
 		fn := symName(args[0])
-		m.Funcs[fn] = &Closure{Name: fn, Params: params(args[1]), Body: args[2:], Env: env}
+		m.Funcs[fn] = &Closure{Name: fn, Params: params(args[1]), Opt: optParams(args[1]), Body: args[2:], Env: env}
 		return single(Sym(fn))
 	case "defmacro":
 		fn := symName(args[0])
@@ -763,12 +771,43 @@ func symName0(v Val) string {
 	return n
 }
 
+// OptParam is an &optional parameter with its default form (evaluated in the scope of the call when needed).
+type OptParam struct {
+	Name    string
+	Default Val
+}
+
 func params(v Val) []string {
 	ps := []string{}
 	for _, p := range asList(v) {
+		if symIs(p, "&optional") {
+			break
+		}
 		ps = append(ps, symName(p))
 	}
 	return ps
+}
+
+func optParams(v Val) (ops []OptParam) {
+	seen := false
+	for _, p := range asList(v) {
+		switch {
+		case symIs(p, "&optional"):
+			seen = true
+		case !seen:
+		default:
+			if l, ok := p.([]Val); ok {
+				op := OptParam{Name: symName(l[0])}
+				if len(l) > 1 {
+					op.Default = l[1]
+				}
+				ops = append(ops, op)
+			} else {
+				ops = append(ops, OptParam{Name: symName(p)})
+			}
+		}
+	}
+	return
 }
 
 func (m *Machine) assign(name string, v Val, env *Env) {
